@@ -84,6 +84,7 @@ pub enum OpK {
     AwaitParked,
     Rendezvous,
     ConsumePark,
+    DropPanicking,
     QueryStopped,
     QueryRunning,
     Yield,
